@@ -161,7 +161,9 @@ fn replay(ctx: &mut Ctx, beh: &[Value], variant: u64) -> Result<(), Viol> {
                     match res {
                         "ok" => { w.dec(C, oid); oid }
                         "none" => NONE,
-                        other => return Err(Viol { class: "replay:connect".into(), what: format!("after step {i} {step}: connect reported {other} for a loopback address") }),
+                        // an immediate connection error to a loopback address is the host's doing (no ports / descriptors
+                        // left): the history is inconclusive, not a violation; the check fails as a tool error if it is frequent
+                        other => return Err(Viol { class: "harness:connect".into(), what: format!("after step {i} {step}: connect reported {other} for a loopback address") }),
                     }
                 } else {
                     w.keyed(C, if key == NONE { None } else { Some(ctx.keys[(key - 1) as usize]) })
